@@ -268,14 +268,16 @@ impl MultiReceiver {
     ///
     /// Cleanup shall be call from time to time to avoid consuming to much memory    
     pub fn cleanup(&mut self, now: SystemTime) {
+        // The expiration is evaluated once per session: a session that expires
+        // between two evaluations would be removed without notifying the listeners
         let mut output = Vec::new();
-        for receiver in &self.alc_receiver {
-            if receiver.1.is_expired() {
-                output.push(receiver.0.clone());
+        self.alc_receiver.retain(|key, receiver| {
+            let is_expired = receiver.is_expired();
+            if is_expired {
+                output.push(key.clone());
             }
-        }
-
-        self.alc_receiver.retain(|_, v| !v.is_expired());
+            !is_expired
+        });
         for receiver in &mut self.alc_receiver.values_mut() {
             receiver.cleanup(now);
         }
